@@ -10,10 +10,11 @@ CFG = {
         S("C20ov", "drive_pool", 60, 2500, race=True),
     ],
     "rule": "a case = a random walk over the enabled labels of the transition system Model/PoolLTS.v (Go mirror in "
-            "harness/cmd/drive_pool/lts.go): 1-4 workers, 1-8 tasks (Submit+receive, SubmitWait or ExecuteWithWorker per task), "
+            "harness/cmd/drive_pool/lts.go): 1-4 workers, 1-8 tasks (Submit+receive, SubmitWait or ExecuteWithWorker per task; each task returns its own id, "
+            "untyped nil, a nil error, a typed nil pointer, 0, \"\" or struct{}{}; executions of every body are counted on the real code), "
             "0-1 Stop, 0-2 Resize (to 0-4, grow/shrink/same), Finish weight 0/1/3/6 so that queues are empty, partial or full when "
             "Stop/Resize hit; enacted on the real WorkerPool with gate-controlled tasks; plus fixed schedules (the two schedules "
-            "fixed by 9607c86, full-queue timeout, grow then stop, three Stop/Resize overlaps). Steps the pool could not be "
+            "fixed by 9607c86, nil/zero results on an idle pool through all three entry points, ExecuteWithWorker refused by a full queue and a stopped pool, full-queue timeout, grow then stop, three Stop/Resize overlaps). Steps the pool could not be "
             "steered into are counted in the tags as not_enacted, never as failures. To keep the set of model states the Coq "
             "monitor must track small, the driver keeps at most one call whose acceptance is unobservable (SubmitWait / "
             "ExecuteWithWorker; others are downgraded to Submit, tag mode_downgraded_to_submit) and at most one call in flight "
@@ -37,7 +38,7 @@ CFG = {
                   "C20_needs_* are kernel-checked violating traces of the models without each repair. The model is tied to "
                   "worker_pool.go by enacting sampled schedules on the real pool: Coq checks that every observed event log is "
                   "accepted by the transition system (set of compatible states, tau-closure) and evaluates the statement of C20 on "
-                  "the log itself (peak concurrency, at most one execution, right result, nobody left blocked).",
+                  "the log itself (peak concurrency; accepted => executed exactly once, at most once overall, refused ExecuteWithWorker => exactly one direct execution, by per-task counters; the answer is the task's own value, nil included; nobody left blocked).",
     "level_note": "Trusted: Coq kernel; the hand-written LTS Model/PoolLTS.v as a rendering of the Go concurrency primitives "
                   "(modelled, not verified: scheduler, channels, RWMutex writer preference, WaitGroup, context, timers; SC "
                   "interleavings only - the Go memory model is not modelled, the thorough tier runs the driver under -race); "
